@@ -62,9 +62,9 @@ func genMem(t *rapid.T) MemCase {
 			} else {
 				o.Mask = rapid.Uint64Range(0, 1<<8-1).Draw(t, "mask")
 			}
-		case w < 93:
+		case w < 91:
 			o.K = "flush"
-		case w < 97:
+		case w < 96:
 			o.K = "ban"
 			o.T = rapid.IntRange(0, len(memAlphabet)-1).Draw(t, "t")
 		default:
@@ -73,7 +73,8 @@ func genMem(t *rapid.T) MemCase {
 		}
 		return o
 	})
-	c.Ops = rapid.SliceOfN(op, 2, 50).Draw(t, "ops")
+	n := rapid.IntRange(2, 50).Draw(t, "nops")
+	c.Ops = rapid.SliceOfN(op, n, n).Draw(t, "ops")
 	return c
 }
 
@@ -87,19 +88,45 @@ func (f *banFilter) CheckTx(tx gtypes.Tx) (bool, error) {
 	return true, nil
 }
 
-func runMem(c MemCase, x *h.Ctx) {
+// memEnv: one Mempool per (block size, limits) configuration and process. NewMempool and Flush
+// each allocate a 100000-entry duplicate cache, so a pool is reused while cases leave it empty
+// (every case ends by committing everything it holds) and is flushed only after a case that did not.
+type memEnv struct {
+	mem   *mempool.Mempool
+	flt   *banFilter
+	dirty bool
+}
+
+var memEnvs = map[string]*memEnv{}
+
+func getMemEnv(bs int, limits bool) *memEnv {
+	k := fmt.Sprintf("%d/%v", bs, limits)
+	if e := memEnvs[k]; e != nil {
+		return e
+	}
 	glog.SetLog(zap.NewNop())
 	conf := viper.New()
+	conf.Set("block_size", bs)
+	conf.Set("mempool_enable_txs_limits", limits)
+	conf.Set("mempool_wal_dir", "")
+	e := &memEnv{mem: mempool.NewMempool(conf), flt: &banFilter{banned: map[string]bool{}}}
+	e.mem.RegisterFilter(e.flt)
+	memEnvs[k] = e
+	return e
+}
+
+func runMem(c MemCase, x *h.Ctx) {
 	bs := c.BlockSize
-	if bs < 1 {
+	if bs < 1 || bs > 3 {
 		bs = 1
 	}
-	conf.Set("block_size", bs)
-	conf.Set("mempool_enable_txs_limits", c.Limits)
-	conf.Set("mempool_wal_dir", "")
-	mem := mempool.NewMempool(conf)
-	flt := &banFilter{banned: map[string]bool{}}
-	mem.RegisterFilter(flt)
+	env := getMemEnv(bs, c.Limits)
+	mem, flt := env.mem, env.flt
+	flt.banned = map[string]bool{}
+	if env.dirty || mem.Size() != 0 {
+		mem.Flush()
+	}
+	env.dirty = true // cleared at the clean end of the case
 	limit := 2 * bs
 
 	labels := map[string]bool{}
@@ -350,6 +377,15 @@ func runMem(c MemCase, x *h.Ctx) {
 		return
 	}
 	checkSize()
+	if !stop && len(fifo) == 0 && len(labels) >= 0 {
+		clean := true
+		for l := range labels {
+			if len(l) > 6 && l[:6] == "known:" {
+				clean = false
+			}
+		}
+		env.dirty = !clean
+	}
 	x.Labelf("limits:%v", c.Limits)
 	for l := range labels {
 		x.Label(l)
